@@ -398,3 +398,53 @@ PROPS["C20"] = dict(
     strength="partial: ownership protocol of the three unsafe sites proved in a token model; end-to-end exactly-once / no-leak checked, not proved",
     level_text="Coq theorems on a token model of the three unsafe sites: ReusableBoxFuture::set drops the old future exactly once and installs (or, on the unwinding mismatch path, drops) the new one exactly once on every path incl. a panicking destructor; Observable::into_shared moves the state exactly once without running Drop; the unreachable_unchecked arm of the YieldBatch swap is unreachable; the ledger used by the check is sound. The end-to-end property is checked by running random histories over observable, vector, subscribers and adapter stacks with an instrumented element type.",
     level_note="PARTIAL: a proof about machine-level double drops / leaks is outside what an executable Gallina model can express; stated in DESIGN.md §10.")
+
+
+# ---------------------------------------------------------------- C02 C03 C04 (threads)
+CONC_TRUST = OBS_TRUST + [
+    "std::sync::RwLock modelled as readers/writer exclusion with writer preference (new readers wait while a writer is queued, as the futex implementation does); fairness beyond that, memory ordering (all steps sequentially consistent) and the OS scheduler are outside the model",
+    "the eyeball_verif pause points (commit b6ca4dd, adapted in 8ebfecc) change timing only; forced schedules are driven by a director thread; a thread the model predicts to be blocked gets a 40 ms confirmation wait, a thread predicted to advance gets 10 s"]
+
+
+def conc_nontriv(case, obs):
+    return "blocked" in obs or "+" in obs
+
+
+def conc_hist(case, obs):
+    return case.split(" || ")[1]
+
+
+def conc_streams(orc, with_lin=False, with_seq=None):
+    def f(tier, rng):
+        q = tier == "quick"
+        st = []
+        if with_seq:
+            st += obs_streams(with_seq)(tier, rng)
+        st.append(Stream("schedules-exhaustive", "conc", gens.conc_exhaustive(), conc_nontriv, True,
+                         "every schedule (sequence of thread releases over the pause points, length covering all micro-steps) of 12 two-thread configurations: poller x setter, poller x last-clone dropper, two droppers of the last two / two of three clones, dropper x upgrader, setter x dropper, two setters, setter x getter, cloner x dropper; with and without an already-pending subscriber",
+                         conc_hist, hook=True, oracles=orc))
+        n = 300 if q else 20000
+        st.append(Stream("schedules-random", "conc", gens.conc_random(rng, n), conc_nontriv, False,
+                         "%d seeded random schedules of 3- and 4-thread configurations (two pollers + setter, two/three droppers (+ upgrader), poller + setter + dropper (+ upgrader), two setters + getter)" % n,
+                         conc_hist, hook=True, oracles=orc))
+        if with_lin:
+            m = 2000 if q else 200000
+            st.append(Stream("free-running", "lin", gens.lin_cases(rng, m), lambda c, o: True, False,
+                             "%d rounds of 2-4 free-running threads, each a random program of 2-5 operations (set / update / set_if_not_eq / get / next_now / poll / read-guard hold with try_write probe / write-guard hold with try_read+try_write probes and guarded sets) on clones of one SharedObservable; invocation/response stamped with a global atomic counter; the recorded history is checked for linearizability against the extracted sequential model (Wing-Gong search), plus set-chain, guard-exclusion and final-value checks" % m,
+                             lambda c, o: "threads=%d" % (c.count(" | ") + 1), oracles={"lin", "setchain", "rguard", "wguard", "guardprobe", "final"}))
+        return st
+    return f
+
+
+PROPS.update({
+    "C02": dict(streams=conc_streams({"wake", "nopanic"}, with_seq={"wake", "spec"}), hook=True, trusted=CONC_TRUST,
+                assumptions=["locks behave as modelled; sequentially consistent steps"],
+                strength="full for the protocol as modelled (operation granularity + lock granularity); partial w.r.t. the runtime: lock implementation, memory ordering and OS scheduling are assumed / sampled",
+                level_text="Coq theorems at operation granularity (any history: a Pending poll registers its waker; every version change wakes the whole list and empties it; a registered waker stays registered until woken) and, once the micro-step model's proofs are in, at lock granularity for every schedule. Tied to the crate at operation granularity by the C01 histories with wake counters compared after every call, and at thread granularity by forced schedules over pause points inside poll/set/close/drop/upgrade (exhaustive for two-thread configurations) with real threads.",
+                level_note="Trusted: Coq kernel, extraction, harness; std RwLock/Arc as modelled; the director's timeouts. PARTIAL w.r.t. the runtime (see strength)."),
+    "C03": dict(streams=conc_streams({"notearly", "ended", "wake", "nopanic"}, with_seq={"spec"}), hook=True, trusted=CONC_TRUST,
+                assumptions=["locks and Arc counters behave as modelled"],
+                strength="full for the protocol as modelled; runtime caveats as C02",
+                level_text="Coq theorems at operation granularity: a poll answers None iff no owner exists, only the drop of the last owner ends the stream (not into_shared, downgrade, dropping some clones / subscribers / weak references), it stays ended with get/read returning the last value, upgrade succeeds iff an owner exists; at lock granularity (once the micro-step proofs are in): with the repaired Drop the state is closed iff no owner is left at every quiescent point of every schedule, and the original Drop is refuted by a 4-step schedule. Tied to the crate by the C01 histories and by forced schedules of two and three concurrent droppers / upgraders at the pause point between the 'am I last?' decision and the release.",
+                level_note="Trusted: as C02. Finding F1 (concurrent last drops never close; drop racing with upgrade closes under a live owner) was reproduced deterministically through the pause points and repaired in 8ebfecc."),
+})
